@@ -16,6 +16,22 @@ PROPS = {
                 technique="deterministic simulation: seeded histories of selections, reloads, availability flips and clock advances on the real balancer; sliding-window share oracle; tape-shrunk replay"),
 }
 
+PROPS["C03"] = dict(engine="A", runs=(8000, 300000), modes=[("nofault", 0.25), ("swarm", 0.75)], race=False,
+    level="exploration", design="§6 Engine A / C03",
+    level_text="Seeded exploration of sequential histories (selections with retries, availability flips, reloads, basic-conf reloads, clock advances through slow-start ramps) on the real BalTable/BalanceGslb/BalanceRR built through the real file loaders; every returned target is checked against the harness's own ground truth (what it configured and marked down) and errors are demanded exactly when that ground truth has no eligible target.",
+    level_note="Trusted: simrt, harness ground-truth model; designated sub-cluster of a key is learnt from a fresh all-up instance of the same real code (uses the determinism that C02 checks).",
+    technique="deterministic simulation: seeded fault/reload histories on the real balancer with a ground-truth eligibility oracle; tape-shrunk replay")
+PROPS["C04"] = dict(engine="A", runs=(8000, 300000), modes=[("nofault", 0.25), ("swarm", 0.75)], race=False,
+    level="exploration", design="§6 Engine A / C04",
+    level_text="Seeded histories of connection open/close, availability flips and reloads on the real balancer in WLC mode; each pick is compared by exact cross-multiplication with every eligible backend using connection counts the harness itself drove.",
+    level_note="Trusted: simrt, harness's own connection counters (ground truth), integer cross-multiplication.",
+    technique="deterministic simulation: seeded connection/fault histories with exact rational minimality oracle")
+PROPS["C02"] = dict(engine="A", runs=(6000, 200000), modes=[("nofault", 0.25), ("swarm", 0.75)], race=False,
+    level="exploration", design="§6 Engine A / C02",
+    level_text="Within simulated histories (flips, reloads, basic-conf changes) every sticky/hash decision of the instance with history is compared with a fresh instance of the real code built from a permuted configuration listing (and, once available, a seeded map-iteration order) in the same eligibility state; plus an exact residue-partition count per target. Input/configuration-driven; the simulation contributes history and ordering independence.",
+    level_note="Trusted: simrt, the twin construction (fresh real instance), murmur3 residue classification via the repo's own GetHash.",
+    technique="deterministic simulation: history-vs-fresh-twin differential under seeded config order, residue partition count")
+
 NOT_APPLICABLE = {
     "C10": "pure function of (host table, VIP table, Host header): no goroutine, clock, stream, file or peer takes part; the only thing to vary is input, which is generation, not simulation (DESIGN §7)",
     "C11": "basic-rule tree lookup is a pure function of (rule set, host, path); nothing to schedule or fault (DESIGN §7)",
